@@ -988,7 +988,7 @@ impl Paint {
             }
             Paint::Pattern(ref mut patt) => {
                 let rect = if patt.units == Units::ObjectBoundingBox {
-                    patt.rect.bbox_transform(bbox)
+                    checked_bbox_transform(patt.rect, bbox)?
                 } else {
                     patt.rect
                 };
